@@ -40,7 +40,7 @@ def obs_facts(ctx, res, args, label):
                        "codegen": r["codegen"], "find_mode": r["facts"]["mode"], "input": b["s"],
                        "input_text": "".join(chr(x) for x in b["s"]), "match_at": b["pos"], "match_end": b["mend"],
                        "violated_facts": b["facts"], "positions_violating": b["count"], "facts": r["facts"],
-                       "p": r["p"], "dialect": r["dia"], "alpha": r["alpha"], "maxlen": r["maxlen"]})
+                       "p": r["p"], "dialect": r["dia"], "alpha": r["alpha"], "maxlen": r["maxlen"], "extra": r.get("extra", [])})
     res.evaluations += sum(r["strings"] for i, r in recsum.items() if i != -1)
     res.traces += len(recs)
     res.nontrivial += sum(1 for i, r in recsum.items() if i != -1 and r["matches"] > 0 and byid[i]["facts"]["mode"] != "NoSearch")
@@ -79,7 +79,7 @@ def run(ctx, res):
 
 def replay(ctx, res, v):
     ctx.build()
-    case = [{"p": v["p"], "o": v["options"], "dia": v["dialect"], "rtl": v["rtl"], "codegen": v["codegen"], "alpha": v["alpha"], "maxlen": v["maxlen"]}]
+    case = [{"p": v["p"], "o": v["options"], "dia": v["dialect"], "rtl": v["rtl"], "codegen": v["codegen"], "alpha": v["alpha"], "maxlen": v["maxlen"], "extra": v.get("extra", [])}]
     cpath = os.path.join(ctx.dir, "case.json")
     json.dump(case, open(cpath, "w"))
     path = os.path.join(ctx.dir, "replay.ndjson")
@@ -99,7 +99,7 @@ def attribute(ctx, viols, gate):
         key = json.dumps([v["p"], v["options"], v["rtl"], v["codegen"]])
         if key not in idx:
             idx[key] = len(cases) + 1
-            cases.append({"p": v["p"], "o": v["options"], "dia": v["dialect"], "rtl": v["rtl"], "codegen": v["codegen"], "alpha": v["alpha"], "maxlen": v["maxlen"]})
+            cases.append({"p": v["p"], "o": v["options"], "dia": v["dialect"], "rtl": v["rtl"], "codegen": v["codegen"], "alpha": v["alpha"], "maxlen": v["maxlen"], "extra": v.get("extra", [])})
     if not cases:
         return []
     cpath = os.path.join(ctx.dir, f"attr-{gate}.json")
